@@ -411,7 +411,7 @@ class AbstractActorCriticOnPolicyAlgorithm[PolicyType: AbstractActorCriticPolicy
 
         callback_state = callback.on_step(
             StepContext(
-                state.callback_state, env, policy, done, bootstrapped_reward, locals()
+                state.callback_state, env, policy, done, reward, locals()
             ),
             key=callback_key,
         )
